@@ -95,6 +95,9 @@ def relevant_failures(pid, res):
     lines = res["lines"]
     order2del = any(l.startswith("new ") and l.split()[2] == "2" for l in lines) and any(l.startswith("del ") for l in lines)
     for f in res["failures"]:
+        if pid == "C05" and f["kind"] in ("panic", "hang") and str(f.get("op", "")).startswith("upd "):
+            out.append(f)   # an Update that does not return has not run its callback exactly once and stored the result
+            continue
         if f["kind"] not in KINDS[pid]:
             continue
         if pid == "C12" and f["kind"] == "panic" and not str(f.get("op", "")).startswith("new "):
